@@ -24,7 +24,7 @@ RULE = ("case = one evdns_base + 1-3 configuration inputs (resolv.conf / hosts f
         "+ DUMP + behavioural probes; non-trivial = the dump was compared with the reference parser and at least one judged setting "
         "differs from the defaults of a fresh base (a directive took effect) or a malformed/ignored input had to be skipped; "
         "distinct = md5 of the case script")
-SIZES = dict(quick=3200, thorough=170000)
+SIZES = dict(quick=3000, thorough=150000)
 EAI_NONAME = -2
 
 try:
